@@ -120,6 +120,28 @@ impl Rng {
             }
         }
     }
+    /// Error code for fault injection: 0 (= Error::FromNone), 1 or 2 (= Error::Other)
+    pub fn err_code(&mut self) -> u8 {
+        self.below(3) as u8
+    }
+    /// f32 from the pool of values that fast paths and special cases key on
+    pub fn special(&mut self) -> f32 {
+        *self.pick(&[0.0f32, -0.0, 1.0, -1.0, 2.0, 0.5, f32::EPSILON, 1.0 - f32::EPSILON / 2.0, 1.0 + f32::EPSILON, f32::MIN_POSITIVE, 16_777_216.0, 16_777_217.0 - 1.0, 1e-6, -1e-5])
+    }
+    /// Two distinct, increasing timestamps whose difference is far below one f32 ulp of their value in
+    /// seconds (they collide when compared after conversion to f32 seconds), at magnitudes from 1 s to
+    /// epoch-scale nanoseconds, either sign.
+    pub fn close_stamps(&mut self) -> (i64, i64) {
+        let base = match self.below(5) {
+            0 => 1_000_000_000,
+            1 => 3_600_000_000_000,
+            2 => 1_700_000_000_000_000_000,
+            3 => self.range_i64(20_000_000, 1 << 40),
+            _ => self.range_i64(1 << 40, 1 << 61),
+        };
+        let gap = match self.below(3) { 0 => 1, 1 => self.range_i64(1, 30), _ => self.range_i64(1, (base / 40_000_000).max(2)) };
+        if self.chance(0.5) { (base, base + gap) } else { (-base - gap, -base) }
+    }
     /// i64 timestamp from magnitude strata (no arithmetic is implied; caller decides usage).
     pub fn stamp(&mut self) -> i64 {
         match self.below(8) {
